@@ -165,6 +165,9 @@ func jsonrtStream(rng *rand.Rand, n int, tier string, out string) (*Summary, err
 				g.pField = 0.45
 			}
 			g.bigBin = i%9 == 5
+			if g.bigBin {
+				g.pField = 0.8 // so that the tree holds unrestricted binary leaves
+			}
 			t := g.genTree()
 			cfg := randJcfg(rng)
 			tt := treeTerm(t)
